@@ -526,7 +526,7 @@ class C07(E2EProp):
     id = "C07"
     cone = ["Properties/C07.vo"]
     prop_file = "Properties/C07.v"
-    theorems = ["C07_examples", "C07_open_conditionals_are_reported", "C07_open_inline_scopes_are_reported", "C07_open_blocks_are_reported", "C07_closing_logs_nothing_under_quiet"]
+    theorems = ["C07_examples", "C07_open_conditionals_are_reported", "C07_open_inline_scopes_are_reported", "C07_open_blocks_are_reported", "C07_sweep_reports_every_open_scope", "C07_closing_logs_nothing_under_quiet"]
     partial = ["C07_complete / C07_sound / C07_lines on whole documents: stated; proved are the steps of the end-of-file sweep - one diagnostic per open conditional, one per open inline scope and one per open display block (all of them closed), macroEm and macroEd log nothing under quiet, an open filter region or definition is reported; the same count for list scopes, that balanced documents are never reported, and the line of the opening macro (which the projected diagnostics of the model do not carry) are tied by S-e2e projected diagnostics (file, line, macro) and S-parse line numbers and searched by the nesting and location oracles"]
     OPEN = [".Bd", ".Bl", ".Bm", ".Bf -f xhtml", ".#if 1", ".#de m", ".Bl -t enum", ".It x"]
     CLOSE = [".Ed", ".El", ".Em", ".Ef", ".#;", ".#.", ".Ch C"]
